@@ -1,1 +1,2 @@
+import SrModel.Proto
 import SrModel.Adaptive
